@@ -1,5 +1,6 @@
 """C15 - hash- and point-time-locked contracts: claim and refund paths are exact."""
 import random, sys
+from ..par import SafePool
 from ..common import Report, REPO
 from .. import scncheck
 from ..gen.progs import push, op
@@ -159,7 +160,7 @@ def main(tier: str, seed: int) -> int:
     scncheck.mc(rep, 'Htlc', 'mc', INV, run_mc, workers=4)
     import multiprocessing as mp
     n = 10000 if quick else 60000
-    with mp.get_context('fork').Pool(14) as pool:
+    with SafePool(14) as pool:
         cases = [c for ch in pool.map(record_random, [(seed * 59 + i, n // 28) for i in range(28)]) for c in ch]
     scncheck.judge(rep, 'Htlc', [], cases, 'random HTLC / PTLC scenarios')
     return rep.finish()
